@@ -53,6 +53,12 @@ def classify_hit(h, idx):
             return "F8:relay-delivered", ("member %s delivered (sender %s, id %s, payload %s) on signatures that were made for another "
                                           "broadcaster (or for none): a fully signed message re-sent by another member is delivered as that member's"
                                           % (m.group(2), q, m.group(4), m.group(5)))
+        want = "(%s, Some %s%%nat, %s, %s)" % (m.group(1), q, m.group(4), m.group(5))
+        covers = re.findall(r"Sig \d+%nat (\(\d+, (?:None|Some \d+%nat), \d+, \(\d+, \d+\)\))", m.group(6))
+        if [c for c in covers if c != want] or "Junk" in m.group(6):
+            return "delivery:signatures-do-not-cover-message", ("member %s delivered (sender %s, id %s, payload %s) although the signature list it was sent does not consist of "
+                                                                "every member's signature over exactly H(session %s, sender, id, payload): %s"
+                                                                % (m.group(2), q, m.group(4), m.group(5), m.group(1), m.group(6)[:300]))
         return "delivery-monitor", "a delivery without a sign event of every honest member for exactly (session, sender, id, payload), or a second payload for the same sender and id"
     m = re.match(r"LSigReq (\d+) (\d+)%nat (\d+)%nat (\d+) (\(\d+, \d+\)) \w+ \(OSig", lab)
     if m:
@@ -121,7 +127,7 @@ def main():
             notes.append("script %d: %s" % (h["id"], x))
     R.coverage["distinct_nontrivial"] = len(seen)
     R.coverage["rule"] = ("scripts over 3..4 (quick) / 3..6 (thorough) libp2p hosts x 2 sessions + an outsider: corpus (F8 relay, pure relay, two broadcasters under one id, "
-                          "the repo's own test sequence, cross-session / cross-id replays, outsider) and random compositions of honest broadcasts, complete broadcasts by a scripted "
+                          "the repo's own test sequence, cross-session / cross-id replays, outsider), replay-after-accept (accepted signature lists re-sent to the same and other receivers with another payload / the same payload / permuted / duplicated / under another id / in the other session, several rounds) and random compositions of honest broadcasts, complete broadcasts by a scripted "
                           "member with withholding, per-receiver equivocation, signature-list subsets/permutations/substitutions/duplications/wrong lengths, relays, unregistered ids, "
                           "late registration, malformed payloads; race = concurrent conflicting requests over 150 (quick) / 300 (thorough) registered ids per cluster size; non-trivial = at least one delivery and at least one refusal observed; distinct by hash of the observed label sequence")
     R.coverage["input_distribution"] = {"kinds": dict(kinds), "cluster_sizes": dict(sizes), "scripted_members": dict(nfaulty),
